@@ -565,14 +565,15 @@ Bases == {"none", "slash_api", "api", "slash_api_slash", "api_v1", "root"}
 BaseParts(b) == CASE b = "none" -> NoParts [] b = "slash_api" -> Parts(TRUE, <<Lit("api")>>, FALSE)
                   [] b = "api" -> Parts(FALSE, <<Lit("api")>>, FALSE) [] b = "slash_api_slash" -> Parts(TRUE, <<Lit("api")>>, TRUE)
                   [] b = "api_v1" -> Parts(TRUE, <<Lit("api"), Lit("v1")>>, FALSE) [] b = "root" -> Parts(TRUE, <<>>, FALSE)
-LitShapes == {"lit", "nolead", "lit_var", "var_lit", "deep"}
+LitShapes == {"lit", "nolead", "lit_var", "var_lit", "deep", "trail", "var_trail"}
 ShapeParts(sh, n) ==
   CASE sh = "lit" -> Parts(TRUE, <<Lit(n)>>, FALSE) [] sh = "nolead" -> Parts(FALSE, <<Lit(n)>>, FALSE)
-    [] sh = "trail" -> Parts(TRUE, <<Lit(n)>>, TRUE) [] sh = "lit_var" -> Parts(TRUE, <<Lit(n), Var("a")>>, FALSE)
+    [] sh = "trail" -> Parts(TRUE, <<Lit(n)>>, TRUE) [] sh = "var_trail" -> Parts(TRUE, <<Lit(n), Var("a"), Lit("keys")>>, TRUE)
+    [] sh = "lit_var" -> Parts(TRUE, <<Lit(n), Var("a")>>, FALSE)
     [] sh = "var_lit" -> Parts(TRUE, <<Var("a"), Lit(n), Lit("z")>>, FALSE)
     [] sh = "deep" -> Parts(TRUE, <<Lit(n), Var("a"), Lit("y"), Var("b"), Var("c")>>, FALSE)
     [] sh = "var" -> Parts(TRUE, <<Var("a")>>, FALSE) [] sh = "var_var" -> Parts(TRUE, <<Var("a"), Var("b")>>, FALSE)
-ShapeVars(sh) == CASE sh \in {"lit_var", "var_lit", "var"} -> <<"a">> [] sh = "deep" -> <<"a", "b", "c">>
+ShapeVars(sh) == CASE sh \in {"lit_var", "var_lit", "var", "var_trail"} -> <<"a">> [] sh = "deep" -> <<"a", "b", "c">>
                    [] sh = "var_var" -> <<"a", "b">> [] OTHER -> <<>>
 RealVerbs == {"GET", "POST", "PUT", "DELETE", "PATCH"}
 NameShapes == {"Get", "GetUser", "GetHTTPStatus", "GetV2Item", "Verify2faCode", "Base64decode", "get_lower_snake"}
@@ -631,7 +632,7 @@ MockField(P, k, c, ex) ==
                 [] c \in {"oneof", "oneof2"} -> InOneof(FRef("v", "v", 1, kind, "one", ref), "o")
                 [] OTHER -> FRef("v", "v", 1, kind, c, ref)
   IN [base EXCEPT !.ann.examples = ExamplesFor(k, ex)]
-MockNestings == {"flat", "nested", "mapvalue", "recursive", "two_services", "protonested", "imported", "xpkg"}
+MockNestings == {"flat", "nested", "mapvalue", "recursive", "two_services", "protonested", "imported", "xpkg", "oneof_in_oneof"}
 C20Case(P, k, c, ex, nest) ==
   LET f == MockField(P, k, c, ex)
       do(out) == Method("Do", FN(P, "In"), out, TRUE, Parts(TRUE, <<Lit("do")>>, FALSE), "POST")
@@ -641,6 +642,13 @@ C20Case(P, k, c, ex, nest) ==
   IN CASE nest = "flat" /\ c \in {"oneof", "oneof2"} ->
             one(<<MsgO("R", FN(P, "R"), ofields \o <<F("label", "label", 2, "string", "one")>>, <<Oneof("o", FALSE, "", FALSE)>>)>>, FN(P, "R"))
        [] nest = "flat"     -> one(<<Msg("R", FN(P, "R"), <<f, F("label", "label", 2, "string", "one")>>)>>, FN(P, "R"))
+       \* a oneof whose message member has itself a oneof with a message member (and a map of such messages)
+       [] nest = "oneof_in_oneof" ->
+            one(<<MsgO("Mid", FN(P, "Mid"), <<InOneof(FRef("leaf", "leaf", 1, "message", "one", FN(P, "Inner")), "pick"), InOneof(F("txt", "txt", 2, "string", "one"), "pick")>>,
+                       <<Oneof("pick", FALSE, "", FALSE)>>),
+                  Msg("Inner", FN(P, "Inner"), <<f>>),
+                  MsgO("R", FN(P, "R"), <<InOneof(FRef("mid", "mid", 1, "message", "one", FN(P, "Mid")), "choice"), InOneof(F("num", "num", 2, "int32", "one"), "choice"),
+                                         FMap("mids", "mids", 3, "string", "message", FN(P, "Mid"))>>, <<Oneof("choice", FALSE, "", FALSE)>>)>>, FN(P, "R"))
        [] nest = "protonested" ->
             one(<<MsgN("R", FN(P, "R"), <<FRef("inner", "inner", 1, "message", "one", FN(P, "R.Inner")), [F("v", "v", 2, "string", "one") EXCEPT !.ann.examples = <<"outer">>]>>,
                        <<Msg("Inner", FN(P, "R.Inner"), <<f>>)>>),
@@ -757,7 +765,7 @@ C18Case(P, sh) ==
 (* top-level message.                                                      *)
 (***************************************************************************)
 Constructs == {"kinds", "wkt", "wkt2", "int64num", "enumcustom", "enumnum", "nullable", "empty", "ts", "bytes", "oneof", "oneofflat", "flatten",
-               "flattenprefix", "unwraplist", "unwrapmap", "multiword", "int64rep", "plain", "required", "oneofplus", "explicit", "flattentwice", "bytesrules", "oneofscalars", "unwrapmapplus", "unwrapsiblings"}
+               "flattenprefix", "unwraplist", "unwrapmap", "multiword", "int64rep", "plain", "required", "oneofplus", "explicit", "flattentwice", "bytesrules", "oneofscalars", "unwrapmapplus", "unwrapsiblings", "unwrapnames", "unwraprootname", "flattennullable"}
 \* the annotated message A (and the helper messages it needs)
 ConstructMsgs(P, c) ==
   LET a(fs) == Msg("A", FN(P, "A"), fs)
@@ -811,6 +819,14 @@ ConstructMsgs(P, c) ==
        \* the value type of a map has an unwrap field AND another field
        [] c = "unwrapmapplus" -> <<Msg("Lp", FN(P, "Lp"), <<Ann(FRef("items", "items", 1, "message", "rep", ch), "unwrap", TRUE), F("cursor", "cursor", 2, "string", "one")>>),
                                    a(<<FMap("by_key", "byKey", 1, "string", "message", FN(P, "Lp")), F("sib_ling", "sibLing", 2, "string", "one")>>)>>
+       \* a flattened child that has an annotated field of its own (one codec feature per message: see D_dup_marshaljson)
+       [] c = "flattennullable" -> <<Msg("Contact", FN(P, "Contact"), <<Ann(F("nickname", "nickname", 1, "string", "opt"), "nullable", TRUE), F("email", "email", 2, "string", "one"),
+                                                                      Ann(F("age", "age", 3, "int32", "opt"), "nullable", TRUE)>>),
+                                     a(<<F("k", "k", 1, "string", "one"), Ann(Ann(FRef("contact", "contact", 2, "message", "one", FN(P, "Contact")), "flatten", TRUE), "prefix", "contact_")>>)>>
+       \* unwrap fields whose Go name is not the UpperCamel of their JSON name (a digit after an underscore)
+       [] c = "unwrapnames" -> <<Msg("Ld", FN(P, "Ld"), <<Ann(F("bars_1d", "bars1d", 1, "string", "rep"), "unwrap", TRUE)>>),
+                                 a(<<FMap("px_1m", "px1m", 1, "string", "message", FN(P, "Ld")), F("top_10", "top10", 2, "int32", "one")>>)>>
+       [] c = "unwraprootname" -> <<a(<<Ann(F("closes_24h", "closes24h", 1, "int64", "rep"), "unwrap", TRUE)>>)>>
        \* a message with a map-value unwrap field whose OTHER fields are of every kind
        [] c = "unwrapsiblings" -> <<Msg("L", FN(P, "L"), <<Ann(FRef("items", "items", 1, "message", "rep", ch), "unwrap", TRUE)>>),
                                     a(<<FMap("by_key", "byKey", 1, "string", "message", FN(P, "L")), F("n", "n", 2, "int64", "one"), FRef("e", "e", 3, "enum", "one", FN(P, "P")),
@@ -859,8 +875,11 @@ ContextMsgs(P, cx) ==
                                 w(<<FMap("by_key", "byKey", 1, "string", "message", FN(P, "UL")), FRef("a", "a", 2, "message", "one", an)>>)>>
 C05Case(P, c, cx) ==
   LET top == IF cx = "top" THEN FN(P, "A") ELSE FN(P, "W")
+  \* (a second service, declared first, reaches the same message: the document of the service under test
+  \* is then not the first one the OpenAPI plugin writes in the run, and must be complete all the same)
   IN Schema(<<File(P \o "/svc.proto", Pkg(P), GoPkg(P), TRUE, <<>>,
-                   <<Svc(P, <<Method("Do", top, top, TRUE, Parts(TRUE, <<Lit("do")>>, FALSE), "POST")>>)>>,
+                   <<Service("Early", TRUE, Parts(TRUE, <<Lit("early")>>, FALSE), <<Method("Peek", top, top, TRUE, Parts(TRUE, <<Lit("peek")>>, FALSE), "POST")>>),
+                     Svc(P, <<Method("Do", top, top, TRUE, Parts(TRUE, <<Lit("do")>>, FALSE), "POST")>>)>>,
                    <<Child(P), Child2(P)>> \o ConstructMsgs(P, c) \o ContextMsgs(P, cx), <<EnumE, EnumPlain>>)>>)
 (***************************************************************************)
 (* C06, parameters: ONE service whose request message has a URL-carried    *)
